@@ -167,7 +167,7 @@ Record inv (s : state) : Prop := mkInv {
 Definition op_u64 (c : op) : Prop :=
   match c with
   | OTry _ _ o l | OUnlock _ o l | OAdjust _ _ o l => u64 o /\ u64 l
-  | OUnlockH _ _ => True
+  | OUnlockH _ _ | OInterrupt _ _ => True
   end.
 (* guard excluding the class of known finding F4: no requested range reaches past 2^64-1 *)
 Definition op_nosat (c : op) : Prop :=
@@ -411,15 +411,44 @@ Proof.
   destruct nf; inversion H; subst; apply Hnew; reflexivity.
 Qed.
 
+(* -------------------------------------------------------------- interrupt ---- *)
+Lemma ordered_map_same (f : entry -> entry) l :
+  (forall x, e_off (f x) = e_off x /\ e_len (f x) = e_len x) -> ordered l -> ordered (map f l).
+Proof.
+  intros Hf H. induction H as [|x l Hs IH Hfa]; cbn; constructor; auto.
+  rewrite Forall_forall in *. intros y Hy. apply in_map_iff in Hy. destruct Hy as (z & <- & Hz).
+  unfold before, e_end. destruct (Hf x) as [-> ->]. destruct (Hf z) as [-> _]. apply Hfa; auto.
+Qed.
+
+Lemma unpark1_same u x : e_off (unpark1 u x) = e_off x /\ e_len (unpark1 u x) = e_len x.
+Proof. split; reflexivity. Qed.
+
+Lemma unpark_ids u l : map e_id (unpark u l) = map e_id l.
+Proof. unfold unpark. rewrite map_map. apply map_ext. reflexivity. Qed.
+
+Lemma interrupt_inv s t u s' evs : inv s -> interrupt s t u = (s', evs) -> inv s'.
+Proof.
+  intros [Ho Hw [Hi Hn]] H. unfold interrupt in H. destruct (is_parked s u); inversion H; subst; [|split; auto].
+  split; cbn.
+  - apply ordered_map_same; auto using unpark1_same.
+  - unfold unpark. rewrite Forall_forall in *. intros y Hy. apply in_map_iff in Hy. destruct Hy as (z & <- & Hz).
+    specialize (Hw z Hz). exact Hw.
+  - split.
+    + unfold ids_below, unpark in *. rewrite Forall_forall in *. intros y Hy. apply in_map_iff in Hy. destruct Hy as (z & <- & Hz).
+      specialize (Hi z Hz). exact Hi.
+    + rewrite unpark_ids. auto.
+Qed.
+
 (* ------------------------------------------------------ steps, reachability ---- *)
 Lemma exec_op_inv s c s' evs : inv s -> op_u64 c -> exec_op s c = (s', evs) -> inv s'.
 Proof.
   intros Hi Hc H. unfold exec_op in H. destruct (is_pending s (op_tid c)); [inversion H; subst; auto|].
-  destruct c as [t k o l|t o l|t h|t h o l]; cbn in Hc, H.
+  destruct c as [t k o l|t o l|t h|t h o l|t u]; cbn in Hc, H.
   - destruct Hc. apply (attempt_inv s t k o l s' evs); auto.
   - eapply unlock_range_inv; eauto.
   - eapply unlock_handle_inv; eauto.
   - destruct Hc. apply (adjust_range_gen_inv true s t h o l s' evs); auto.
+  - eapply interrupt_inv; eauto.
 Qed.
 
 (* the requests of parked threads are uint64 too (they come from ops) *)
@@ -469,13 +498,14 @@ Qed.
 Lemma exec_op_pend_u64 s c s' evs : pend_u64 s -> op_u64 c -> exec_op s c = (s', evs) -> pend_u64 s'.
 Proof.
   intros Hp Hc H. unfold exec_op in H. destruct (is_pending s (op_tid c)); [inversion H; subst; auto|].
-  destruct c as [t k o l|t o l|t h|t h o l]; cbn in Hc, H.
+  destruct c as [t k o l|t o l|t h|t h o l|t u]; cbn in Hc, H.
   - destruct Hc. apply (attempt_pend_u64 s t k o l s' evs); auto.
   - unfold unlock_range in H. destruct (lb_split o (idx s)). destruct (unlock_loop o l l1). inversion H; subst; auto.
   - unfold unlock_handle in H. destruct (find_id h (idx s)) as [[[a x] b]|]; inversion H; subst; auto.
   - unfold adjust_range, adjust_range_gen in H. destruct h as [h|]; [|inversion H; subst; auto].
     destruct (find_id h (idx s)) as [[[a x] b]|]; [|inversion H; subst; auto].
     match type of H with (if ?c then _ else _) = _ => destruct c end; inversion H; subst; auto.
+  - unfold interrupt in H. destruct (is_parked s u); inversion H; subst; auto.
 Qed.
 
 Lemma wake_inv s t s' evs : inv s -> pend_u64 s -> wake s t = (s', evs) -> inv s' /\ pend_u64 s'.
@@ -530,7 +560,7 @@ Section RangePred.
   Lemma exec_op_P s c s' evs : all_P s -> op_P c -> exec_op s c = (s', evs) -> all_P s'.
   Proof.
     intros HP Hc H. unfold exec_op in H. destruct (is_pending s (op_tid c)); [inversion H; subst; auto|].
-    destruct c as [t k o l|t o l|t h|t h o l]; cbn in Hc, H.
+    destruct c as [t k o l|t o l|t h|t h o l|t u]; cbn in Hc, H.
     - eapply attempt_P; eauto.
     - destruct HP as [H1 H2]. unfold unlock_range in H.
       destruct (lb_split o (idx s)) as [pre post] eqn:E. destruct (unlock_loop o l post) as [keep wk] eqn:E2.
@@ -547,6 +577,9 @@ Section RangePred.
       match type of H with (if ?c then _ else _) = _ => destruct c end; inversion H; subst; clear H; [split; auto|].
       rewrite Hl in H1. apply Forall_app in H1. destruct H1 as [H1a H1b]. inversion H1b; subst.
       split; cbn; auto. apply Forall_app; split; auto.
+    - destruct HP as [H1 H2]. unfold interrupt in H. destruct (is_parked s u); inversion H; subst; [|split; auto].
+      split; cbn; auto. unfold unpark. rewrite Forall_forall in *. intros y Hy. apply in_map_iff in Hy.
+      destruct Hy as (z & <- & Hz). apply (H1 z Hz).
   Qed.
 
   Lemma wake_P s t s' evs : all_P s -> wake s t = (s', evs) -> all_P s'.
@@ -932,13 +965,14 @@ Proof.
   destruct (reachable_P nonempty G_strict s (fun c Hc => proj2 (proj2 Hc)) Hr) as [_ He].
   split.
   - intros c u (Hc1 & Hc2 & Hc3). unfold exec_op. destruct (is_pending s (op_tid c)); [cbn; intros [H|[]]; discriminate|].
-    destruct c as [t k o l|t o l|t h|t h o l]; cbn in Hc2, Hc3.
+    destruct c as [t k o l|t o l|t h|t h o l|t u0]; cbn in Hc2, Hc3.
     + apply attempt_no_ub; auto.
     + unfold unlock_range. destruct (lb_split o (idx s)). destruct (unlock_loop o l l1). cbn; intros [H|[]]; discriminate.
     + unfold unlock_handle. destruct (find_id h (idx s)) as [[[a x] b]|]; cbn; intros [H|[]]; discriminate.
     + unfold adjust_range, adjust_range_gen. destruct h as [h|]; [|cbn; intros [H|[]]; discriminate].
       destruct (find_id h (idx s)) as [[[a x] b]|]; [|cbn; intros [H|[]]; discriminate].
       match goal with |- context [if ?c then _ else _] => destruct c end; cbn; intros [H|[]]; discriminate.
+    + unfold interrupt. destruct (is_parked s u0); cbn; intros [H|[]]; discriminate.
   - intros t u. unfold wake. destruct (lookup_pend t (pend s)) as [p|] eqn:E; [|cbn; tauto].
     apply lookup_pend_in in E. rewrite Forall_forall in Hn, He. specialize (Hn _ E). specialize (He _ E). cbn in Hn, He.
     destruct (p_kind p); try (cbn; intros [H|[]]; discriminate).
